@@ -24,6 +24,8 @@ pub struct C12 {
     pub ref_hash_seed: u64,
     pub alone_hash_seed: u64,
     pub variants: Vec<Variant>,
+    /// what the evaluating thread did before (on another network); not applied to the twin reference
+    pub prelude: Option<evalx::Prelude>,
 }
 
 impl C12 {
@@ -34,6 +36,7 @@ impl C12 {
             "twin_text": self.batch.iter().map(|f| twin(f).render()).collect::<Vec<_>>(),
             "ref_hash_seed": self.ref_hash_seed,
             "alone_hash_seed": self.alone_hash_seed,
+            "prelude": self.prelude.as_ref().map(|p| json!({"model": p.model, "k": p.k, "formulae": p.formulae})),
             "variants": self.variants.iter().map(|v| json!({
                 "order": v.order, "mode": v.mode.name(), "observer": v.obs.to_json(), "hash_seed": v.hash_seed
             })).collect::<Vec<_>>(),
@@ -44,7 +47,16 @@ impl C12 {
             "batch": v["batch"], "variants": v["variants"],
             "ref_hash_seed": v["ref_hash_seed"], "nocache_hash_seed": v["alone_hash_seed"],
         }))?;
-        Ok(C12 { batch: c.batch, ref_hash_seed: c.ref_hash_seed, alone_hash_seed: c.nocache_hash_seed, variants: c.variants })
+        let prelude = if v["prelude"].is_object() {
+            Some(evalx::Prelude {
+                model: v["prelude"]["model"].as_str().unwrap_or("").to_string(),
+                k: v["prelude"]["k"].as_u64().unwrap_or(1) as u16,
+                formulae: v["prelude"]["formulae"].as_array().map(|a| a.iter().map(|s| s.as_str().unwrap_or("").to_string()).collect()).unwrap_or_default(),
+            })
+        } else {
+            None
+        };
+        Ok(C12 { batch: c.batch, ref_hash_seed: c.ref_hash_seed, alone_hash_seed: c.nocache_hash_seed, variants: c.variants, prelude })
     }
 }
 
@@ -293,7 +305,39 @@ pub fn generate(rng: &Rng, world: &World) -> C12 {
     let pos = r.below(rep.len() + 1);
     rep.insert(pos, r.below(n));
     variants.push(Variant { order: rep, mode: random_mode(&mut r, plain), obs: random_obs(&mut r, world), hash_seed: hs.next_u64() });
-    C12 { batch, ref_hash_seed: hs.next_u64(), alone_hash_seed: hs.next_u64(), variants }
+    // a sibling network (same variables, regulation constraints dropped, one update function
+    // negated) analysed by the same thread just before
+    let prelude = if r.chance(1, 3) {
+        let mut negated = false;
+        let lines: Vec<String> = world
+            .model
+            .lines()
+            .map(|l| {
+                if l.starts_with('$') {
+                    if !negated && r.chance(1, 2) {
+                        if let Some((head, body)) = l.split_once(':') {
+                            negated = true;
+                            return format!("{head}: !({})", body.trim());
+                        }
+                    }
+                    l.to_string()
+                } else {
+                    let mut s = l.to_string();
+                    for arrow in [" ->? ", " -|? ", " -?? ", " -> ", " -| ", " -? "] {
+                        if s.contains(arrow) {
+                            s = s.replace(arrow, " -?? ");
+                            break;
+                        }
+                    }
+                    s
+                }
+            })
+            .collect();
+        Some(evalx::Prelude { model: lines.join("\n") + "\n", k: world.k, formulae: vec!["!{x}: AG EF {x}".to_string(), "!{x}: AX {x}".to_string()] })
+    } else {
+        None
+    };
+    C12 { batch, ref_hash_seed: hs.next_u64(), alone_hash_seed: hs.next_u64(), variants, prelude }
 }
 
 pub fn check(world: &World, sc: &C12) -> Report {
@@ -323,6 +367,10 @@ pub fn check(world: &World, sc: &C12) -> Report {
             }
         }
     }
+    // from here on every evaluation thread first analyses the sibling network (if any)
+    evalx::set_prelude(sc.prelude.clone());
+    rep.probe("runs_with_prior_history_in_thread", sc.prelude.is_some() as u64);
+    rep.probe("worlds_with_caller_restricted_colours", world.restrict.is_some() as u64);
     rep.probe("batches", 1);
     rep.probe("formulae", sc.batch.len() as u64);
     rep.probe("attractor_pattern_sites", npat.0 as u64);
@@ -382,7 +430,8 @@ pub fn check(world: &World, sc: &C12) -> Report {
         ["batch_pattern_vs_twin", "permuted_batch_pattern_vs_twin", "repeated_batch_pattern_vs_twin"],
         "generic evaluation of the twin",
     );
-    let mut sig = 0u64;
+    evalx::set_prelude(None);
+    let mut sig = sc.prelude.is_some() as u64;
     for f in &sc.batch {
         sig ^= fnv1a(f.render().as_bytes()).rotate_left(3);
     }
@@ -402,8 +451,13 @@ pub fn shrinks(sc: &C12) -> Vec<C12> {
     };
     let mut out: Vec<C12> = crate::c04::shrinks(&as04)
         .into_iter()
-        .map(|c| C12 { batch: c.batch, ref_hash_seed: c.ref_hash_seed, alone_hash_seed: c.nocache_hash_seed, variants: c.variants })
+        .map(|c| C12 { batch: c.batch, ref_hash_seed: c.ref_hash_seed, alone_hash_seed: c.nocache_hash_seed, variants: c.variants, prelude: sc.prelude.clone() })
         .collect();
+    if sc.prelude.is_some() {
+        let mut s = sc.clone();
+        s.prelude = None;
+        out.insert(0, s);
+    }
     // no variants at all (alone-only violation)
     if !sc.variants.is_empty() {
         let mut s = sc.clone();
